@@ -182,12 +182,16 @@ def _container(r, pool, ids, rel, depth, opts):
         tid = r.choice([None, None, None, '1410', '1501', '300'])
     it = sr.ContainerContentItem(name=name, relationship_type=rel, template_id=tid,
                                  is_content_continuous=r.random() < 0.7)
+    attrs = ['ValueType', 'ConceptNameCodeSequence', 'ContinuityOfContent'] + (['ContentTemplateSequence'] if tid else [])
     if r.random() < 0.25:
         # optional attributes of the Document Relationship Macro, on the root as on any other item
         it.ObservationDateTime = '2020010112%02d00' % r.randint(0, 59)
+        attrs.append('ObservationDateTime')
         if r.random() < 0.5:
             it.ObservationUID = uid(r, 'obs')
-    spec = {'id': ids.next(), 'vt': 'CONTAINER', 'name': nm, 'rel': rel, 'ref': None, 'has_seq': False, 'children': []}
+            attrs.append('ObservationUID')
+    spec = {'id': ids.next(), 'vt': 'CONTAINER', 'name': nm, 'rel': rel, 'ref': None, 'has_seq': False, 'children': [],
+            'attrs': attrs}
     fan = r.choice(opts.get('fanouts', [0, 1, 2, 2, 3, 3, 4, 5]))
     if rel is None and fan == 0 and not opts.get('allow_empty_root'):
         fan = 1
